@@ -157,6 +157,8 @@ def run(res, replay=None):
     import enginecorr
     enginecorr.run_corr(res, random.Random(res.seed * 7919 + 7), 100 if res.tier == "quick" else 1500, focus="index")
     c09.btree_probe(res)
+    import btreeprobe
+    res.oracle_failures.extend(btreeprobe.probe(res, sql=True))
     for i in range(8 if res.tier == "quick" else 80):
         for d, w in special_index_history(rng, res, "uh"[i % 2]):
             if len(res.oracle_failures) < 5:
